@@ -29,12 +29,16 @@ impl SecondaryStorage {
                 info!("create db directory at {:?}", options.path);
                 fs::create_dir(&options.path).await?;
             }
+            #[cfg(feature = "verif")]
+            crate::verif::crash_point("boot.db_dir", &options.path);
 
             // create DV folder if not exist
             let dv_directory = options.path.join("dv");
             if fs::metadata(&dv_directory).await.is_err() {
                 fs::create_dir(&dv_directory).await?;
             }
+            #[cfg(feature = "verif")]
+            crate::verif::crash_point("boot.dv_dir", &dv_directory);
         }
 
         let enable_fsync = !matches!(options.io_backend, IOBackend::InMemory(_));
@@ -130,9 +134,13 @@ impl SecondaryStorage {
                         (table_id.parse::<u32>(), rowset_id.parse::<u32>())
                     && !rowsets_to_open.contains_key(&(table_id, rowset_id))
                 {
+                    #[cfg(feature = "verif")]
+                    crate::verif::crash_point("boot.vacuum_before_unlink", entry.path());
                     fs::remove_dir_all(entry.path())
                         .await
                         .expect("failed to vacuum unused rowsets");
+                    #[cfg(feature = "verif")]
+                    crate::verif::crash_point("boot.vacuum_after_unlink", entry.path());
                 }
             }
         }
